@@ -24,6 +24,7 @@ argument, T_k being the declared type; slice functions receive as_slice() of a v
 unit ones do not; async functions are awaited.
 Not decided: Cucumber-Expression semantics (regex generation lives in the cucumber-expressions crate) and matching
 behaviour for arbitrary step texts.
+Added after the second seeded round: (R4) slice functions: the loop over capture groups pushes one element per group on every way round; (R5) groups are merged by name prefix only under starts_with("__") (the reserved names of multi-group expression parameters); (R6) Collection::clone is field-faithful.
 """
 DECLINED = ["Cucumber Expression -> regex semantics (external crate)", "behaviour for arbitrary step texts", "signatures outside the zoo"]
 ASSUMPTIONS = ["the zoo is representative of supported signatures (see zoo/src/lib.rs)", "inventory::submit! registers the static it is given exactly once"]
